@@ -131,13 +131,12 @@ theorem C23_dsis_binops (w : Nat) (a : DSIS) (bs : List SI) (order : List Nat) (
    fun ha hb h => dsis_ashr w a bs order v ha hb h x y hx hy,
    fun wb ha hb h => dsis_concat w wb a bs order v ha hb h x y hx hy⟩
 
-/-- `*` and `%` on sets — under the alignment guard of the interval operations (members aligned and normal for `*`; members of
-the divisor aligned for `%`, division by zero exempt).  The unguarded statements are false already on one-member sets
-(`C21.mul_unaligned_unsound`). -/
+/-- `*` and `%` on sets — `*` under the alignment guard of the interval operation (members aligned and normal; the unguarded
+statement is false already on one-member sets: `C21.mul_unaligned_unsound`), `%` for all members (division by zero exempt) -/
 theorem C23_dsis_mul_mod (w : Nat) (a : DSIS) (bs : List SI) (order : List Nat) (v : Val) (x y : Nat) (hx : a.mem x)
     (hy : memL bs y) :
     ((∀ s, s ∈ a.sis → NEa w s) → (∀ t, t ∈ bs → NEa w t) → a.lift2 SI.mul bs order = .ok v → v.mem ((x * y) % 2 ^ w)) ∧
-    ((∀ s, s ∈ a.sis → NE w s) → (∀ t, t ∈ bs → NE w t ∧ t.Aligned) → a.lift2 SI.mod bs order = .ok v → y ≠ 0 →
+    ((∀ s, s ∈ a.sis → NE w s) → (∀ t, t ∈ bs → NE w t) → a.lift2 SI.mod bs order = .ok v → y ≠ 0 →
       v.mem (x % y)) :=
   ⟨fun ha hb h => dsis_mul w a bs order v ha hb h x y hx hy, fun ha hb h hy0 => dsis_mod w a bs order v ha hb h x y hx hy hy0⟩
 
@@ -174,7 +173,7 @@ theorem C23_dsis_reflected (w : Nat) (hw : 0 < w) (a : DSIS) (o : SI) (hab : a.b
     (x y : Nat) (hx : a.mem x) (hy : o.mem y) :
     (∀ o1 o2 v, (∀ s, s ∈ a.sis → NE w s) → a.rsub o o1 o2 = .ok v → v.mem ((y + 2 ^ w - x) % 2 ^ w)) ∧
     (∀ order r, (∀ s, s ∈ a.sis → WFw w s) → a.rudiv o order = .ok r → x ≠ 0 → r.mem (y / x)) ∧
-    (∀ r, (∀ s, s ∈ a.sis → WFw w s ∧ s.Aligned) → a.rmod o = .ok r → x ≠ 0 → r.mem (y % x)) :=
+    (∀ r, (∀ s, s ∈ a.sis → WFw w s) → a.rmod o = .ok r → x ≠ 0 → r.mem (y % x)) :=
   ⟨fun o1 o2 v ha h => dsis_rsub w hw a o o1 o2 v hab ha ho h x y hx hy,
    fun order r ha h hx0 => dsis_rudiv w hw a o order r hab ha ho h x y hx hy hx0,
    fun r ha h hx0 => dsis_rmod w hw a o r hab ha ho h x y hx hy hx0⟩
@@ -207,12 +206,12 @@ theorem C23_dsis_udiv (w : Nat) (a : DSIS) (bs : List SI) (orders : List (List N
     (h : a.udivSet bs orders order = .ok v) (x y : Nat) (hx : a.mem x) (hy : memL bs y) (hy0 : y ≠ 0) : v.mem (x / y) :=
   dsis_udiv w a bs orders order v ha hb h x y hx hy hy0
 
-/-- `valueset + interval`, `- interval`, `% interval` (the divisor aligned) are sound region by region -/
+/-- `valueset + interval`, `- interval`, `% interval` are sound region by region -/
 theorem C23_valueset_arith (w : Nat) (v v' : VS) (b : SI) (hv : ∀ p, p ∈ v.regions → NE w p.2) (hb : NE w b) (region : String)
     (x y : Nat) (hx : v.memAt region x) (hy : b.mem y) :
     (v.mapRegions (fun s => pure (s.add b)) = .ok v' → v'.memAt region ((x + y) % 2 ^ w)) ∧
     (v.mapRegions (fun s => pure (s.sub b)) = .ok v' → v'.memAt region ((x + 2 ^ w - y) % 2 ^ w)) ∧
-    (b.Aligned → v.mapRegions (fun s => s.mod b) = .ok v' → y ≠ 0 → v'.memAt region (x % y)) :=
+    (v.mapRegions (fun s => s.mod b) = .ok v' → y ≠ 0 → v'.memAt region (x % y)) :=
   vs_arith w v v' b hv hb region x y hx hy
 
 /-- full statement for `widen` of a set (`self.collapse().widen(b)`) -/
